@@ -3,5 +3,6 @@ import VermouthProps.C06_Ismags
 import VermouthProps.C06_IsmagsLcs
 import VermouthProps.C06_IsmagsSym
 import VermouthProps.C06_IsmagsLcsSym
+import VermouthProps.C06_Cosets
 /-! Umbrella module of property C06: importing it makes every theorem listed in
 `lean/theorems/C06.txt` visible, so the axiom audit needs one Lean process. -/
